@@ -206,3 +206,85 @@ def c19(ctx):
         ctx.cov["binding_selftest"] = st
     ctx.cov["rule"] = "a formation is non-trivial when it has >= 3 parties (joiners dial each other, accept order matters)"
     ctx.check_drift()
+
+
+# ---------------------------------------------------------------------- C01
+GARBLE_CFG = """SPECIFICATION Spec
+CONSTANTS
+  NIn = %d
+  MaxGates = %d
+  Ops = {"XOR", "XNOR", "AND", "OR", "INV"}
+  FreeS = %s
+%s
+CHECK_DEADLOCK FALSE
+"""
+
+
+@prop("C01")
+def c01(ctx):
+    thorough = ctx.tier == "thorough"
+    ctx.build()
+    ctx.assumptions += ["AES behaves as a random function: the pads pi(k) of distinct (labels, tweak) are independent atoms",
+                        "permute bits of internal wires cannot be forced on the real code; their coverage is measured, not guaranteed"]
+    # (M) every circuit x every input x every permute-bit assignment
+    if thorough:
+        ctx.tlc_expect_ok("Garble", "Garble_mc.cfg", name="garble-mc-2-2", timeout=3400,
+                          cfg_text=GARBLE_CFG % (2, 2, "TRUE", "INVARIANT Safety"))
+        ctx.tlc_expect_ok("Garble", "Garble_mc.cfg", name="garble-sim-3-3", mode="sim", sim="num=20000", depth=20,
+                          cfg_text=GARBLE_CFG % (3, 3, "TRUE", "INVARIANT Safety"), timeout=3400)
+    else:
+        ctx.tlc_expect_ok("Garble", "Garble_mc.cfg", name="garble-mc-2-1", timeout=1500,
+                          cfg_text=GARBLE_CFG % (2, 1, "TRUE", "INVARIANT Safety"))
+        ctx.tlc_expect_ok("Garble", "Garble_mc.cfg", name="garble-sim-2-2", mode="sim", sim="num=3000", depth=20,
+                          cfg_text=GARBLE_CFG % (2, 2, "TRUE", "INVARIANT Safety"), timeout=1500)
+    # (G) all circuits of <= 2 gates over 2 inputs (+ sampled 3x3), all inputs, on the real code
+    g = ctx.tlc("GarbleGen", "Garble_gen.cfg", mode="gen", name="garble-gen", timeout=1500,
+                cfg_text=GARBLE_CFG % (2, 2, "FALSE", "CONSTRAINT Emit"))
+    if g["status"] != "ok" or not g["cases"]:
+        raise Broken("GarbleGen failed: %s\n%s" % (g["status"], g["out"][-2000:]))
+    allcases = g["cases"]
+    g3 = ctx.tlc("GarbleGen", "Garble_gen.cfg", mode="sim", workers=1, name="garble-gen3", timeout=1500,
+                 sim="num=%d" % (6000 if thorough else 600), depth=20,
+                 cfg_text=GARBLE_CFG % (3, 3, "FALSE", "CONSTRAINT Emit"))
+    allcases += g3["cases"]
+    seen = set()
+    uniq = []
+    for c in allcases:
+        k = json.dumps(c, sort_keys=True)
+        if k not in seen:
+            seen.add(k)
+            uniq.append(c)
+    cases = os.path.join(ctx.tmp, "c01cases.ndjson")
+    write_ndjson(cases, uniq)
+    res = os.path.join(ctx.tmp, "c01res.ndjson")
+    ctx.run_vh(["c01", "replay", cases, res], timeout=3000)
+    n = ctx.absorb(res)
+    ctx.cov["traces_validated_against_impl"] += n - 1
+    ctx.cov["exhaustive_circuits_2in_2gates"] = len(g["cases"])
+    # (T) permute bits / decoded bits of real runs explained by the symbolic spec
+    trace = os.path.join(ctx.tmp, "garble_trace.ndjson")
+    res2 = os.path.join(ctx.tmp, "c01rec.ndjson")
+    nrec = 400 if thorough else 60
+    ctx.run_vh(["c01", "record", trace, res2, nrec], timeout=3000)
+    ctx.absorb(res2)
+    if not ctx.violations:
+        t = ctx.tlc("GarbleTrace", "GarbleTrace.cfg", mode="trace", files=[trace], timeout=3000)
+        if t["status"] == "ok":
+            ctx.cov["traces_validated_against_impl"] += nrec
+        elif t["status"] in ("postcondition", "invariant"):
+            ln, line = tlc_reject_line(t["out"])
+            ctx.violation("trace-rejected", "a real Garble/Eval run is not a behaviour of Garble.tla: line %s %s %s" % (ln, line, t.get("which", "")), t["out"][-2000:])
+        else:
+            raise Broken("GarbleTrace failed: %s\n%s" % (t["status"], t["out"][-3000:]))
+        rows = read_ndjson(trace)
+        r2 = [dict(r) for r in rows]
+        idx = [i for i, r in enumerate(r2) if r["ev"] == "egate"]
+        r2[idx[len(idx) // 2]]["bit"] ^= 1
+        p = os.path.join(ctx.tmp, "selftest", "garble_trace.ndjson")
+        os.makedirs(os.path.dirname(p), exist_ok=True)
+        write_ndjson(p, r2)
+        x = ctx.tlc("GarbleTrace", "GarbleTrace.cfg", mode="trace", files=[p], name="garble-selftest")
+        if x["status"] == "ok":
+            raise Broken("binding self-test: GarbleTrace accepted a flipped decoded bit")
+        ctx.cov["binding_selftest"] = {"flipped-bit": x["status"]}
+    ctx.cov["rule"] = "cases are (circuit, input) pairs; non-trivial = at least two gates (fan-out / wire reuse / tweak counter advance matter); distinct by JSON"
